@@ -12,10 +12,10 @@ from whoosh.matching import ArrayUnionMatcher, PreloadedUnionMatcher
 concrete_arrays()
 NI2 = 2
 NC3 = tiered(0, 1)
-ND2 = tiered(5, 7)
+ND2 = tiered(5, 6)
 
 
-@h(bounds="3 submatchers ids<=2,2,0<5 (thorough 2,2,1<7), partsize 1..3, doccount ND2", funcs=F + ["whoosh.matching.combo.ArrayUnionMatcher"],
+@h(bounds="3 submatchers ids<=2,2,0<5 (thorough 2,2,1<6), partsize 1..3, doccount ND2", funcs=F + ["whoosh.matching.combo.ArrayUnionMatcher"],
    examples=[dict(a=[1, 3], b=[0, 3], c=[], part=2)], timeout=dict(quick=450, thorough=2400))
 def c01_arrayunion(a: List[int], b: List[int], c: List[int], part: int) -> Optional[str]:
     """
@@ -28,7 +28,7 @@ def c01_arrayunion(a: List[int], b: List[int], c: List[int], part: int) -> Optio
     return r
 
 
-@h(bounds="3 submatchers ids<=2,2,0<5 (thorough 2,2,1<7), doccount ND2", funcs=F + ["whoosh.matching.combo.PreloadedUnionMatcher"],
+@h(bounds="3 submatchers ids<=2,2,0<5 (thorough 2,2,1<6), doccount ND2", funcs=F + ["whoosh.matching.combo.PreloadedUnionMatcher"],
    examples=[dict(a=[1, 3], b=[0, 3], c=[])], timeout=dict(quick=450, thorough=2400))
 def c01_preloaded(a: List[int], b: List[int], c: List[int]) -> Optional[str]:
     """
